@@ -342,7 +342,7 @@ def run(ctx, col: Collector):
             reads = action_reads(act)
             # small value helpers (`comment_before_text(tok)`) are read in place
             afi = idx.funcs.get(f'{act.module}:{act.name}')
-            if afi is not None:
+            if afi is not None and act.node is afi.node:        # (the grammar model already holds parse actions with their helpers in place)
                 from ..inline import inline_fragments
                 afi2 = inline_fragments(idx, afi)
                 if afi2 is not afi:
